@@ -179,18 +179,66 @@ def ref_xts_encrypt(key, tweak, p):
     return b"".join(out)
 
 
-def ref_wrap(kek, data):
-    """RFC 3394 section 2.2.1 (index based)."""
-    rks = aes_expand(kek)
+def ecb_block_fns(key):
+    """Raw single-block AES primitive of the `cryptography` package (ECB on exactly one block), used directly --
+    not its keywrap module, which is what SPSDK's wrapper calls."""
+    from cryptography.hazmat.primitives.ciphers import Cipher, algorithms, modes
+    c = Cipher(algorithms.AES(key), modes.ECB())
+
+    def enc(b):
+        assert len(b) == 16
+        return c.encryptor().update(b)
+
+    def dec(b):
+        assert len(b) == 16
+        return c.decryptor().update(b)
+    return enc, dec
+
+
+def ref_wrap(block_enc, data):
+    """RFC 3394 section 2.2.1 (index based): A / R registers, 6*n steps."""
     n = len(data) // 8
     a = b"\xa6" * 8
     r = [data[8 * i:8 * i + 8] for i in range(n)]
     for j in range(6):
         for i in range(n):
-            b = aes_enc_block(rks, a + r[i])
+            b = block_enc(a + r[i])
             a = xor(b[:8], (n * j + i + 1).to_bytes(8, "big"))
             r[i] = b[8:]
     return a + b"".join(r)
+
+
+def ref_unwrap(block_dec, wrapped):
+    """RFC 3394 section 2.2.2 with the integrity check of 2.2.3; None when the IV does not come out."""
+    n = len(wrapped) // 8 - 1
+    a = wrapped[:8]
+    r = [wrapped[8 * (i + 1):8 * (i + 2)] for i in range(n)]
+    for j in range(5, -1, -1):
+        for i in range(n - 1, -1, -1):
+            b = block_dec(xor(a, (n * j + i + 1).to_bytes(8, "big")) + r[i])
+            a, r[i] = b[:8], b[8:]
+    return b"".join(r) if a == b"\xa6" * 8 else None
+
+
+def ref_cbc_encrypt(key, iv, data):
+    """SP 800-38A 6.2 over the plain-Python forward cipher."""
+    rks = aes_expand(key)
+    out, prev = [], iv
+    for i in range(0, len(data), 16):
+        prev = aes_enc_block(rks, xor(data[i:i + 16], prev))
+        out.append(prev)
+    return b"".join(out)
+
+
+def ref_ctr(key, ctr0, data):
+    """SP 800-38A 6.5, 128-bit big-endian counter."""
+    rks = aes_expand(key)
+    c = int.from_bytes(ctr0, "big")
+    out = []
+    for i in range(0, len(data), 16):
+        out.append(xor(data[i:i + 16], aes_enc_block(rks, (c % (1 << 128)).to_bytes(16, "big"))))
+        c += 1
+    return b"".join(out)
 
 
 def ref_hkdf(salt, ikm, info, length):
@@ -219,18 +267,75 @@ def ref_crc(name, data):
     return (rev(reg, w) if refout else reg) ^ xorout
 
 
-def openssl(args, data):
-    p = subprocess.run(["openssl"] + args, input=data, stdout=subprocess.PIPE, stderr=subprocess.PIPE)
-    if p.returncode != 0:
-        raise RuntimeError("openssl " + " ".join(args) + ": " + p.stderr.decode()[:200])
-    return p.stdout
+class OracleUnavailable(Exception):
+    """An external oracle tool (openssl CLI, a hashlib algorithm) could not give an answer. Never a property verdict."""
+
+
+ORACLE_DIR = os.path.join(vlib.WORK, PID)
+TOOL = {"calls": 0, "retries": 0, "unavailable": 0, "internal_errors": 0, "messages": []}
+
+
+def tool_note(msg):
+    if len(TOOL["messages"]) < 10:
+        TOOL["messages"].append(msg[:300])
+
+
+def openssl(args, data, expect_len):
+    """Run the openssl CLI on `data` given as a FILE (-in), never a pipe; an answer is accepted only with exit status 0
+    and the expected output length. One retry; then OracleUnavailable."""
+    os.makedirs(ORACLE_DIR, exist_ok=True)
+    path = os.path.join(ORACLE_DIR, f"oracle_in_{os.getpid()}.bin")
+    with open(path, "wb") as f:
+        f.write(data)
+    TOOL["calls"] += 1
+    err = ""
+    try:
+        for attempt in (0, 1):
+            try:
+                # `openssl mac` takes the algorithm name as its last argument
+                cmd = (["openssl"] + args[:-1] + ["-in", path] + args[-1:]) if args[0] == "mac" else (["openssl"] + args + ["-in", path])
+                p = subprocess.run(cmd, stdin=subprocess.DEVNULL, stdout=subprocess.PIPE, stderr=subprocess.PIPE, timeout=60)
+                if p.returncode == 0 and len(p.stdout) == expect_len:
+                    return p.stdout
+                err = f"rc={p.returncode} out={len(p.stdout)}B (expected {expect_len}) {p.stderr.decode(errors='replace')[:160]}"
+            except (subprocess.TimeoutExpired, OSError) as ex:
+                err = repr(ex)
+            if attempt == 0:
+                TOOL["retries"] += 1
+    finally:
+        try:
+            os.remove(path)
+        except OSError:
+            pass
+    TOOL["unavailable"] += 1
+    tool_note("openssl " + " ".join(args[:2]) + ": " + err)
+    raise OracleUnavailable(err)
 
 
 def ossl_enc(cipher, key, iv, data):
+    """Only for streamable modes of `openssl enc` (ECB / CBC / CTR / SM4-CBC on whole blocks or a stream cipher)."""
     a = ["enc", "-" + cipher, "-e", "-nopad", "-K", key.hex()]
     if iv is not None:
         a += ["-iv", iv.hex()]
-    return openssl(a, data)
+    return openssl(a, data, len(data))
+
+
+def lib_hash(name, data):
+    try:
+        return hashlib.new(name, data).digest()
+    except ValueError as ex:          # algorithm not provided by this build of OpenSSL
+        TOOL["unavailable"] += 1
+        tool_note(f"hashlib {name}: {ex}")
+        raise OracleUnavailable(str(ex))
+
+
+def lib_hmac(key, data, name):
+    try:
+        return pyhmac.new(key, data, name).digest()
+    except ValueError as ex:
+        TOOL["unavailable"] += 1
+        tool_note(f"hmac {name}: {ex}")
+        raise OracleUnavailable(str(ex))
 
 
 # ====================================================================== spec oracles on the implementation's outputs
@@ -277,6 +382,15 @@ class Oracle:
         self.count(name + " roundtrip")
         return None
 
+    def via_cli(self, name, got, call):
+        """compare with the CLI when it answers; a tool failure is counted, never reported as a violation"""
+        try:
+            want = call()
+        except OracleUnavailable:
+            self.count("oracle unavailable: openssl-cli")
+            return None
+        return self.same_as(name, got, want, "openssl-cli")
+
     def same_as(self, name, got, want, who):
         if got != want:
             return (f"{name}:differs-from-{who}", f"{name}: SPSDK {got.hex()[:96]} != {who} {want.hex()[:96]}")
@@ -296,7 +410,9 @@ class Oracle:
             if o or is_err(r):
                 return o
             if len(d) and self.cli():
-                return self.same_as(name, r[1][0][1], ossl_enc(f"aes-{8 * len(k)}-ecb", k, None, d), "openssl-cli")
+                o = self.via_cli(name, r[1][0][1], lambda: ossl_enc(f"aes-{8 * len(k)}-ecb", k, None, d))
+                if o:
+                    return o
             return self.same_as(name, r[1][0][1], b"".join(aes_enc_block(aes_expand(k), d[i:i + 16]) for i in range(0, len(d), 16)), "python-fips197")
         if fn in (3, 13):
             k, d = a[0], a[1]
@@ -312,7 +428,11 @@ class Oracle:
             iv = ive if ive is not None else bytes(16)     # the documented default is an all-zero block
             ciph = f"aes-{8 * len(k)}-cbc" if fn == 3 else "sm4-cbc"
             if len(d) and self.cli():
-                return self.same_as(name, r[1][0][1], ossl_enc(ciph, k, iv, pad16(d)), "openssl-cli")
+                o = self.via_cli(name, r[1][0][1], lambda: ossl_enc(ciph, k, iv, pad16(d)))
+                if o:
+                    return o
+            if fn == 3:
+                return self.same_as(name, r[1][0][1], ref_cbc_encrypt(k, iv, pad16(d)), "python-sp800-38a")
             return None
         if fn == 5:
             k, d, n = a
@@ -321,8 +441,10 @@ class Oracle:
             if o or is_err(r):
                 return o
             if len(d) and self.cli():
-                return self.same_as(name, r[1][0][1], ossl_enc(f"aes-{8 * len(k)}-ctr", k, n, d), "openssl-cli")
-            return None
+                o = self.via_cli(name, r[1][0][1], lambda: ossl_enc(f"aes-{8 * len(k)}-ctr", k, n, d))
+                if o:
+                    return o
+            return self.same_as(name, r[1][0][1], ref_ctr(k, n, d), "python-sp800-38a")
         if fn == 7:
             k, d, t = a
             legal = len(k) in (32, 64) and len(t) == 16 and (len(d) >= 16) and k[:len(k) // 2] != k[len(k) // 2:]
@@ -345,11 +467,16 @@ class Oracle:
             o = self.roundtrip(name, r, d, legal)
             if o or is_err(r):
                 return o
-            if self.cli():
-                o = self.same_as(name, r[1][0][1], openssl(["enc", f"-id-aes{8 * len(k)}-wrap", "-e", "-K", k.hex(), "-iv", "a6" * 8], d), "openssl-cli")
-                if o:
-                    return o
-            return self.same_as(name, r[1][0][1], ref_wrap(k, d), "python-rfc3394")
+            # (openssl enc cannot be used here: its key-wrap ciphers are not streamable)
+            wrapped = r[1][0][1]
+            benc, bdec = ecb_block_fns(k)
+            o = self.same_as(name, wrapped, ref_wrap(benc, d), "python-rfc3394-over-raw-ecb-block")
+            if o:
+                return o
+            if ref_unwrap(bdec, wrapped) != d:
+                return (f"{name}:reference-unwrap-rejects", f"RFC 3394 unwrap (IV check) of SPSDK's output {wrapped.hex()[:96]} does not give the key data")
+            rks = aes_expand(k)
+            return self.same_as(name, wrapped, ref_wrap(lambda b: aes_enc_block(rks, b), d), "python-rfc3394-over-python-fips197")
         if fn == 15:
             nonce, cv, big, incs = a[0], unopt(case[2]), a[2], [x[1] for x in a[3]]
             if len(nonce) != 16:
@@ -383,19 +510,19 @@ class Oracle:
                 return None if is_err(r) else (f"{name}:accepts-unknown-algorithm", f"tag {tag}")
             if is_err(r):
                 return (f"{name}:rejects-valid-input:e{r[1]}", f"{name} tag {tag} raised {r[1:]}")
-            return self.same_as(f"{name}[{HASHLIB[tag]}]", r[1], hashlib.new(HASHLIB[tag], data).digest(), "hashlib")
+            return self.same_as(f"{name}[{HASHLIB[tag]}]", r[1], lib_hash(HASHLIB[tag], data), "hashlib")
         if fn == 21:
             k, d, tag = a
             if tag not in HASHLIB:
                 return None
             if is_err(r):
                 return (f"{name}:rejects-valid-input:e{r[1]}", f"{name} raised {r[1:]}")
-            return self.same_as(f"{name}[{HASHLIB[tag]}]", r[1], pyhmac.new(k, d, HASHLIB[tag]).digest(), "python-hmac")
+            return self.same_as(f"{name}[{HASHLIB[tag]}]", r[1], lib_hmac(k, d, HASHLIB[tag]), "python-hmac")
         if fn == 22:
             k, d, s, tag = a
             if tag not in HASHLIB:
                 return None
-            want = pyhmac.new(k, d, HASHLIB[tag]).digest() == s
+            want = lib_hmac(k, d, HASHLIB[tag]) == s
             if is_err(r) or bool(r[1]) != want:
                 return (f"{name}:wrong-verdict", f"hmac_validate -> {r} expected {want}")
             self.count("hmac_validate verdict")
@@ -407,8 +534,8 @@ class Oracle:
             if is_err(r):
                 return (f"{name}:rejects-valid-input:e{r[1]}", f"{name} raised {r[1:]}")
             if self.cli():
-                got = openssl(["mac", "-cipher", f"AES-{8 * len(k)}-CBC", "-macopt", "hexkey:" + k.hex(), "-binary", "CMAC"], d)
-                o = self.same_as(name, r[1], got, "openssl-cli")
+                o = self.via_cli(name, r[1], lambda: openssl(["mac", "-cipher", f"AES-{8 * len(k)}-CBC", "-macopt", "hexkey:" + k.hex(),
+                                                                "-binary", "CMAC"], d, 16))
                 if o:
                     return o
             return self.same_as(name, r[1], ref_cmac(k, d), "python-sp800-38b")
@@ -633,7 +760,10 @@ def gen_cases(tier, rng):
             k, d = rb(klen), rb(n)
             mac.append([21, VB(k), VB(d), VI(tag)])
             if n in (0, 32):
-                good = pyhmac.new(k, d, HASHLIB[tag]).digest()
+                try:
+                    good = pyhmac.new(k, d, HASHLIB[tag]).digest()
+                except ValueError:       # algorithm missing in this OpenSSL build: no validate cases for it
+                    continue
                 bad = bytes([good[0] ^ 1]) + good[1:]
                 for s in (good, bad, good[:-1], b""):
                     mac.append([22, VB(k), VB(d), VB(s), VI(tag)])
@@ -773,12 +903,21 @@ def run(tier):
     for c, r, rr in zip(flat, impl_res, raw):
         try:
             o = orc.check(c, r)
-        except Exception as ex:  # noqa
-            o = (f"{FN[c[0]]}:oracle-crashed", repr(ex))
+        except OracleUnavailable:
+            orc.count("oracle unavailable: " + FN[c[0]])
+            o = None
+        except Exception as ex:  # noqa   a defect of the oracle code is a harness problem, never a verdict on SPSDK
+            TOOL["internal_errors"] += 1
+            tool_note(f"oracle code failed on {FN[c[0]]}: {ex!r}")
+            o = None
         if o:
             rep.failing(o[0], "implementation violates the C09 contract: " + o[1],
                         {"kind": "impl-oracle", "function": FN[c[0]], "case": [c[0]] + [vlib.jv(a) for a in c[1:]], "impl_result": rr})
     phase("oracles")
+    # harness health, reported as such: external oracle tools must answer (a few transient failures are tolerated,
+    # those cases are still compared SPSDK <-> Coq model exactly) and the oracle code itself must not fail
+    tool_ok = TOOL["unavailable"] <= max(3, (TOOL["calls"] + len(flat)) // 50) and TOOL["internal_errors"] == 0
+    rep.obligation("oracle:tool-availability", tool_ok, f"{TOOL}")
     ndis, nmodel = 0, 0
     if model_ok:
         try:
@@ -793,7 +932,11 @@ def run(tier):
                     ndis += 1
                     if ndis <= 5:
                         vlib.log(f"  disagreement {FN[c[0]]} {str(c[1:])[:300]}: impl {str(ri)[:200]} model {str(rm)[:200]}")
-                    if not orc.check(c, ri):
+                    try:
+                        hit = orc.check(c, ri)
+                    except Exception:  # noqa  (already accounted for in the oracle pass)
+                        hit = None
+                    if not hit:
                         nm = f"correspondence:{FN[c[0]]}"
                         if nm not in rep.broken:
                             rep.broken.append(nm)
@@ -827,7 +970,7 @@ def run(tier):
         assumptions=["messages up to 4 KiB in the differential runs (theorems are unbounded)", "CCM payloads shorter than 2^16 bytes",
                      "Counter increments are non-negative in the oracle (negative ones are compared with the model only, which follows Python's & 0xFFFFFFFF)",
                      "SHA-1 / MD5 / SM3 are compared with hashlib only (no Coq reference)"],
-        extra_cov={"phases_cumulative_s": phases, "oracle_agreements": orc.hits, "openssl_cli_calls": orc.cli_used, "model_evaluations": nmodel})
+        extra_cov={"phases_cumulative_s": phases, "oracle_tools": TOOL, "oracle_agreements": orc.hits, "openssl_cli_calls": orc.cli_used, "model_evaluations": nmodel})
 
 
 if __name__ == "__main__":
